@@ -214,7 +214,13 @@ pub fn run_items<I: Sync + Send, F: Fn(&I, &mut Cx) + Sync>(property: &'static s
                 if k1 != k2 {
                     err = Some(format!("non-reproducible violations in suite {} (first pass {:?} / second pass {:?}): machinery error", suite, k1.iter().map(|k| k.0).collect::<Vec<_>>(), k2.iter().map(|k| k.0).collect::<Vec<_>>()));
                 }
-                cx.violations = cx2.violations;
+                if err.is_some() {
+                    // not reproducible: no verdict from this item (reported as a machinery error instead)
+                    cx.violations.clear();
+                    cx.vio_counts.clear();
+                } else {
+                    cx.violations = cx2.violations;
+                }
             }
             (cx, cnt, err)
         })
@@ -448,14 +454,14 @@ pub fn finish(rep: Report, t: Totals, t0: Instant) -> i32 {
         "{} {} seed={} states={} transitions={} paths={} outcomes={:?} violations={} known={} wall={:.1}s",
         rep.property, rep.tier.name(), rep.seed, t.states, t.transitions, t.paths, t.outcomes, new_violations, known, wall
     );
-    if !t.machinery_errors.is_empty() {
-        for e in &t.machinery_errors {
-            eprintln!("machinery error: {}", e);
-        }
-        return 2;
+    for e in &t.machinery_errors {
+        eprintln!("machinery error: {}", e);
     }
     if new_violations > 0 {
+        // reproduced violations are a verdict even if some other work item misbehaved
         1
+    } else if !t.machinery_errors.is_empty() {
+        2
     } else if preconditions > 0 {
         eprintln!("machinery error: {} precondition(s) of this check failed; the property is undecided", preconditions);
         2
@@ -482,6 +488,11 @@ pub fn replay(path: &str) -> i32 {
         let (r1, l1) = api::reexec(c);
         let (r2, l2) = api::reexec(c);
         if r1 != r2 || l1 != l2 {
+            if v["property"] == "C17" {
+                println!("  [{}] {}::{} gives DIFFERENT results when executed twice with identical arguments and tape: hidden state (what C17 forbids)", i, c.suite, c.op);
+                println!("REPRODUCED: non-determinism observed on this tree");
+                return 1;
+            }
             eprintln!("machinery error: call {} ({}) is not deterministic", i, c.op);
             return 2;
         }
